@@ -1,6 +1,6 @@
 ------------------------------ MODULE Trace_Split ------------------------------
 (* C14.split: several transferable keys concatenated in one blob are separated correctly.        *)
-EXTENDS Packets, TLC, Json, IOUtils
+EXTENDS Subpackets, TLC, Json, IOUtils
 J == JsonDeserialize(IOEnv.TRACE_FILE)
 Events == J.events
 VARIABLE i
@@ -33,16 +33,21 @@ Groups(blob) == GroupsFrom(Split(blob).pkts, 1, <<>>)
 Readable(g) == g.tag \in {13, 17} \/ (g.tag \in {5, 6, 7, 14} /\ Len(g.body) > 0 /\ g.body[1] = 4 /\ PubEnd(g.body) # 0)
 CompOf(g) == IF g.tag \in {13, 17} THEN g.body ELSE PubPortion(g.body)
 Assoc(blob) == LET gs == SelectSeq(Groups(blob), Readable) IN {[comp |-> CompOf(gs[k]), sigs |-> gs[k].sigs] : k \in 1..Len(gs)}
+\* a signature of ANY type whose hashed area carries Exportable Certification = 0 (5.2.3.11) stays with the key it was received on: it
+\* is held in memory and left out of every export; all others are exported
+NonExportable(b) == LET f == SigFields(b) IN
+  f.ok /\ LET hs == SubSplit(f.hashedArea) IN hs.ok /\ \E k \in 1..Len(hs.sps) : hs.sps[k].type = 4 /\ hs.sps[k].body = <<0>>
+AssocExported(blob) == {[comp |-> a.comp, sigs |-> {x \in a.sigs : ~NonExportable(x)}] : a \in Assoc(blob)}
 SeqSet(q) == {q[k] : k \in 1..Len(q)}
 AssocEv(e) ==
   IF ~Split(e.blob).ok THEN "harness.assoc-blob"
   ELSE IF e.raised THEN "C14.association"
   ELSE IF {[comp |-> e.got[k].comp, sigs |-> SeqSet(e.got[k].sigs)] : k \in 1..Len(e.got)} # Assoc(e.blob) THEN "C14.association"
   ELSE IF \E k \in 1..Len(e.got) : Len(e.got[k].sigs) # Cardinality(SeqSet(e.got[k].sigs)) THEN "C14.association"   \* none held twice
-  ELSE IF ~Split(e.reexport).ok \/ Assoc(e.reexport) # Assoc(e.blob) THEN "C14.association-export"
+  ELSE IF ~Split(e.reexport).ok \/ Assoc(e.reexport) # AssocExported(e.blob) THEN (IF Assoc(e.reexport) = Assoc(e.blob) THEN "C14.exportable" ELSE "C14.association-export")
   ELSE IF e.copy_export # e.reexport THEN "C14.copy"                         \* a copy exports identically
   \* the public twin carries the same signature packets (octet for octet) on the same components
-  ELSE IF ~Split(e.pub_export).ok \/ Assoc(e.pub_export) # Assoc(e.blob) THEN "C14.association-export"
+  ELSE IF ~Split(e.pub_export).ok \/ Assoc(e.pub_export) # AssocExported(e.blob) THEN "C14.association-export"
   ELSE "ok"
 Judge(e) == IF e.k = "split" THEN SplitEv(e) ELSE IF e.k = "assoc" THEN AssocEv(e) ELSE "harness.unknown-event"
 Init == i = 1
